@@ -9,7 +9,7 @@ META = {
     'technique': 'static provenance of the timer duration, who-may-call(abort) and expiry-edge rules over MIR',
     'text': 'Decides the structure that makes server deadlines right: on arrival the timer is armed with the request\'s own decoded deadline minus a fresh now, keyed by its id; expiry '
             'aborts and forgets exactly the entry whose timer fired, on the Some edge only; AbortHandle::abort is called only by the aborting removal, the expiry and the table\'s Drop, so no '
-            'other path can abort a handler early; other requests are untouched because every operation is keyed by the fired id. The source-coverage clause (expiry processing while the '
+            'other path can abort a handler early, and no removal leaves its timer armed (a left-over timer would fire on a later request reusing the id); other requests are untouched because every operation is keyed by the fired id. The source-coverage clause (expiry processing while the '
             'response sink is not ready, with a request limiter) is checked by the shape walker and reports known finding D5.',
     'note': 'Trusted: DelayQueue never fires early; futures AbortHandle/Abortable semantics. Not decided: timing. Known finding D5 (MaxRequests at its limit with a non-ready sink delays expiry).',
 }
